@@ -190,7 +190,8 @@ def check(case, ctx):
             ctx.count('captions_filling_all_15_rows')
     out = SCCWriter().write(dump.mk_caption_set(spec))
     fails = []
-    lines = out.split('\n')
+    # LF or CR LF: the statement does not fix the line terminator
+    lines = out.replace('\r\n', '\n').split('\n')
     if lines[0] != 'Scenarist_SCC V1.0':
         fails.append({'what': 'missing Scenarist header', 'first_line': lines[0]})
     body = [ln for ln in lines[1:] if ln.strip()]
